@@ -17,6 +17,7 @@ pub fn install_panic_hook() {
                 if f.contains("grammar.rs") || f.contains("/out/") { "grammar.rs".to_string() } else { format!("{}:{}", f, l.line()) }
             })
             .unwrap_or_else(|| "?".into());
+        if std::env::var("CV_DEBUG").is_ok() { eprintln!("panic at {} : {}", info.location().map(|l| l.to_string()).unwrap_or_default(), info); }
         LAST_PANIC.with(|p| *p.borrow_mut() = loc);
     }));
 }
@@ -108,4 +109,20 @@ pub fn outcome(r: Result<Result<Value, String>, String>) -> Value {
         Ok(Err(e)) => json!({"err": 1, "msg": e.chars().take(160).collect::<String>()}),
         Err(site) => json!({"panic": site}),
     }
+}
+
+/// the informative end of an error message (the crate puts the input dump first)
+pub fn tail(s: &str) -> String { let v: Vec<char> = s.chars().collect(); let n = v.len(); v[n.saturating_sub(220)..].iter().collect() }
+
+/// root cause of a candid error: the "Caused by" chain of its Debug form (without the backtrace), else the end of its Display form
+pub fn errmsg<E: std::fmt::Debug + std::fmt::Display>(e: &E) -> String {
+    let d = format!("{e:?}");
+    if let Some(i) = d.find("Caused by:") {
+        let rest = &d[i..];
+        let end = rest.find("Stack backtrace").unwrap_or(rest.len());
+        let lines: Vec<&str> = rest[..end].lines().skip(1).map(|l| l.trim()).filter(|l| !l.is_empty()).collect();
+        let causes: Vec<&str> = lines.into_iter().filter(|l| !l.starts_with("input:") && !l.starts_with("table:") && !l.starts_with("type table") && !l.starts_with("wire_type:")).collect();
+        return format!("{} || {}", tail(&e.to_string()), causes.join(" | "));
+    }
+    tail(&e.to_string())
 }
